@@ -862,6 +862,13 @@ static Boolean LayoutQuadWord(tStrComp const* pExpr, struct sLayoutCtx* pCtx) {
             goto ToInt;
         }
 
+        /* float-only statement: no character strings */
+
+        if (!pCtx->Put64I) {
+            WrStrErrorPos(ErrNum_FloatButString, pExpr);
+            break;
+        }
+
         TranslateString(erg.Contents.str.p_str, erg.Contents.str.len);
 
         for (z = 0; z < erg.Contents.str.len; z++) {
